@@ -16,6 +16,7 @@ EXPLANATION = (
     "property accessors, stream iterators); every failure of handleRequest ends the connection (no hang); the client raises the decoded object exactly under the exception flag; the batch "
     "wrapper is written and read as the same class and re-raises its payload."
     'Also decided: the default error hook cannot raise (format fields that index their argument are modelled); every serialised exception object carries the traceback text and the error reply is sent on every path; definite assignment in the reporting modules. '
+    "Also decided (round 7): The property gates call fget/fset directly, so the accessor's own exception is what leaves the gate. "
     "Not decided: equality of args/attributes after "
     "the trip (third-party codecs), all classes x argument shapes."
 )
